@@ -705,15 +705,15 @@ func (po *PinOptions) Equals(po2 *PinOptions) bool {
 	}
 
 	for k, v := range po.Metadata {
-		v2 := po2.Metadata[k]
-		if k != "" && v != v2 {
+		v2, ok := po2.Metadata[k]
+		if k != "" && (!ok || v != v2) {
 			return false
 		}
 	}
 	// and the other way around: keys only present in po2
 	for k, v2 := range po2.Metadata {
-		v := po.Metadata[k]
-		if k != "" && v != v2 {
+		v, ok := po.Metadata[k]
+		if k != "" && (!ok || v != v2) {
 			return false
 		}
 	}
